@@ -662,6 +662,7 @@ func TestVerifC40IncrementalEqualsFull(t *testing.T) {
 				parent     *vSnapC40
 				skipped    bool
 				hasParent  bool
+				sn         *vSnapC40 // the snapshot that was created, if any
 			}
 			var created []*vSnapC40
 			var skips []skipObs
@@ -718,7 +719,7 @@ func TestVerifC40IncrementalEqualsFull(t *testing.T) {
 				}
 				s.logf("backup %s env%d parent=%s skip-if-unchanged=%v -> snapshot %.8s (new %d changed %d unmodified %d)", op, env, pdesc, o.SkipIfUnchanged, sum.SnapshotID, sum.FilesNew, sum.FilesChanged, sum.FilesUnmodified)
 				if o.SkipIfUnchanged {
-					skips = append(skips, skipObs{op, env, parent, sum.SnapshotID == "", parent != nil})
+					skips = append(skips, skipObs{op, env, parent, sum.SnapshotID == "", parent != nil, nil})
 				}
 				if parent != nil && sum.FilesUnmodified >= 1 && sum.FilesNew+sum.FilesChanged >= 1 {
 					nontrivial = true
@@ -752,13 +753,18 @@ func TestVerifC40IncrementalEqualsFull(t *testing.T) {
 				}
 				snaps[env] = append(snaps[env], sn)
 				created = append(created, sn)
+				if o.SkipIfUnchanged {
+					skips[len(skips)-1].sn = sn
+				}
 				classes = append(classes, "op="+op)
 				if env == 1 && len(snaps[1]) == 1 {
 					classes = append(classes, "fresh-repository-full")
 				}
 			}
 
-			// oracle 1: every snapshot of this state has the tree of the forced (full) backup
+			// oracle 1: every snapshot of this state stores the source directory with the tree ID of the
+			// forced (full) backup. The root trees also contain the ancestors /verif/.work/... of the source,
+			// which other processes modify concurrently; their equality is only counted.
 			var ref *vSnapC40
 			for _, sn := range created {
 				if sn.Op == "F" {
@@ -770,30 +776,30 @@ func TestVerifC40IncrementalEqualsFull(t *testing.T) {
 					continue
 				}
 				st.Evals(1)
-				if sn.Sub != ref.Sub || sn.Root != ref.Root {
-					what := "source directory tree"
-					a, b := sn.Sub, ref.Sub
-					if sn.Sub == ref.Sub {
-						what, a, b = "root tree (ancestors of the source directory)", sn.Root, ref.Root
-					}
-					t.Fatalf("state %d, mode %s: backup %s (env%d, parent %.8s) stored a different %s than the forced backup: %s != %s\n  %s\nedits and backups:\n  %s",
-						state, vModeNamesC40[mode], sn.Op, sn.Env, sn.Parent, what, a.Str(), b.Str(), vTreeDiffC40(envs[sn.Env], a, envs[0], b), strings.Join(s.log, "\n  "))
+				if sn.Sub != ref.Sub {
+					t.Fatalf("state %d, mode %s: backup %s (env%d, parent %.8s) stored a different source directory tree than the forced backup: %s != %s\n  %s\nedits and backups:\n  %s",
+						state, vModeNamesC40[mode], sn.Op, sn.Env, sn.Parent, sn.Sub.Str(), ref.Sub.Str(), vTreeDiffC40(envs[sn.Env], sn.Sub, envs[0], ref.Sub), strings.Join(s.log, "\n  "))
 				}
+				classes = append(classes, fmt.Sprintf("root-tree-equal=%v", sn.Root == ref.Root))
 			}
-			// oracle 2: --skip-if-unchanged omits the snapshot <=> a parent exists and its tree equals the tree of this state
+			// oracle 2: --skip-if-unchanged omits the snapshot <=> a parent exists and its tree equals the new tree.
+			//   snapshot created  => no parent, or new root tree != parent's root tree (both observed, exact)
+			//   snapshot omitted  => a parent exists and the parent's source directory tree is the tree of this state
+			//                        (the new root tree of an omitted snapshot cannot be observed; its ancestors part
+			//                        is outside the control of the test)
 			for _, so := range skips {
 				st.Evals(1)
-				expect := so.hasParent && so.parent.Root == ref.Root
-				classes = append(classes, fmt.Sprintf("skip-if-unchanged:parent=%v,equal=%v", so.hasParent, expect))
-				if so.skipped != expect {
-					t.Fatalf("state %d: backup %s (env%d) with --skip-if-unchanged: snapshot skipped=%v, expected %v (parent exists=%v, parent tree %s, tree of this state %s)\nedits and backups:\n  %s",
-						state, so.op, so.env, so.skipped, expect, so.hasParent, func() string {
-							if so.parent != nil {
-								return so.parent.Root.Str()
-							}
-							return "-"
-						}(), ref.Root.Str(), strings.Join(s.log, "\n  "))
+				switch {
+				case so.skipped && !so.hasParent:
+					t.Fatalf("state %d: backup %s (env%d) with --skip-if-unchanged created no snapshot although it had no parent\nedits and backups:\n  %s", state, so.op, so.env, strings.Join(s.log, "\n  "))
+				case so.skipped && so.parent.Sub != ref.Sub:
+					t.Fatalf("state %d: backup %s (env%d) with --skip-if-unchanged created no snapshot although the parent (state %d) has a different tree: %s != %s\n  %s\nedits and backups:\n  %s",
+						state, so.op, so.env, so.parent.State, so.parent.Sub.Str(), ref.Sub.Str(), vTreeDiffC40(envs[so.env], so.parent.Sub, envs[0], ref.Sub), strings.Join(s.log, "\n  "))
+				case !so.skipped && so.hasParent && so.sn.Root == so.parent.Root:
+					t.Fatalf("state %d: backup %s (env%d) with --skip-if-unchanged created snapshot %.8s although its tree %s equals the tree of its parent %.8s\nedits and backups:\n  %s",
+						state, so.op, so.env, so.sn.ID, so.sn.Root.Str(), so.parent.ID, strings.Join(s.log, "\n  "))
 				}
+				classes = append(classes, fmt.Sprintf("skip-if-unchanged:parent=%v,skipped=%v", so.hasParent, so.skipped))
 			}
 			histKey = append(histKey, ref.Sub.String())
 			_ = find
